@@ -108,6 +108,51 @@ class NativeCastWorld:
                       r'^<(std::vec::|alloc::vec::)?IntoIter as (std::iter::|core::iter::)?Iterator>::\w+$', r'^(std::fs::|fs::)\w+$',
                       r'^<dyn (std::io::)?(Write|Read) as .*>::\w+$', r'^(std::time::|core::time::)?Duration::\w+$')
         m(r'^(std::boxed::|alloc::boxed::)?Box::new$', lambda e_, a, c: a[0])
+
+        # a list built from a slice (list!(&*items) handed to manage_obj): a new object with an identity of its own; its elements are a row of
+        # any values (what the natives compute with them is C11's subject, not the sweeps')
+        def m_manage_vec(e_, a, c):
+            v = a[1] if len(a) > 1 else None
+            if isinstance(v, Struct) and 'VecBuilder' in str(getattr(v, 'ty', '')):
+                return AbsObj(z3.BitVec(e_.fresh_name('new_vector'), 64), 'List')
+            return NotImplemented
+        m(r'^(laythe_core::)?(hooks::)?(Hooks|GcHooks)::manage_obj$', m_manage_vec)
+
+        def _raw_row(e_, v):
+            while isinstance(v, Ref):
+                v = v.cell.get(e_)
+            if not hasattr(v, 'id'):
+                return None
+            from .vmabs import AbsArr as _AA
+            row = _AA(v.id, VALUE).seq(e_)
+            e_.add_constraint(z3.ULE(row.len, 4))
+            return row
+
+        def m_raw_len(e_, a, c):
+            row = _raw_row(e_, a[0])
+            return row.len if row is not None else NotImplemented
+        m(r'^(laythe_core::)?(collections::)?(\w+::)*RawSharedVector::len$', m_raw_len)
+
+        def m_raw_deref2(e_, a, c):
+            row = _raw_row(e_, a[0])
+            return SliceRef(row, bv(0, 64), row.len) if row is not None else NotImplemented
+        m(r'^<(laythe_core::)?(collections::)?(\w+::)*RawSharedVector as (std::ops::|core::ops::)?Deref(Mut)?>::deref(_mut)?$', m_raw_deref2)
+
+        # the list natives' own merge sort: the comparator runs at least once on two or more elements (two calls are unrolled)
+        def m_merge_sort(e_, a, c):
+            s_, f = a[0], a[1]
+            while isinstance(s_, Ref):
+                s_ = s_.cell.get(e_)
+            while isinstance(f, Ref) and isinstance(f.cell.get(e_), Ref):
+                f = f.cell.get(e_)
+            ln = e_.slice_len(s_)
+            if e_.fork_bool(z3.UGE(ln, 2)):
+                for k in range(2):
+                    x = Ref(e_.seq_cell(s_.seq, z3.simplify(s_.start + 0)))
+                    y = Ref(e_.seq_cell(s_.seq, z3.simplify(s_.start + 1)))
+                    e_.call_value(c.frame, f, [x, y])
+            return UNIT
+        m(r'^(laythe_lib::)?(\w+::)*merge_sort$', m_merge_sort)
         # instance fields: one row per instance identity, so that a test of a field and a later read of it see the same value
         from .vmabs import AbsArr, object_of
 
